@@ -10,6 +10,7 @@ rnd = 'r2-' if '--r2' in sys.argv else ''
 src = '/tmp/seedout/%s%s/%s' % (rnd, prop, k)
 wt = '/tmp/wt/scratch'
 env = dict(os.environ, GOFLAGS='-mod=mod', GOPROXY='off', GOSUMDB='off', GOTOOLCHAIN='local'); env.pop('GOWORK', None)
+env['GZV_EVIDENCE_DIR'] = '/tmp/gzv-evidence-scratch'
 def run(cmd, cwd=wt, timeout=1500):
     r = subprocess.run(cmd, cwd=cwd, env=env, capture_output=True, text=True, shell=isinstance(cmd, str), timeout=timeout)
     return r.returncode, (r.stdout + r.stderr)
